@@ -43,6 +43,22 @@ Definition any_ok (all : option (list ltree)) (any : list ltree) : bool :=
   | Some l, [r] => existsb (ltree_eqb r) l
   | _, _ => false
   end.
+Definition any_weak (all : option (list ltree)) (any : list ltree) : bool :=
+  match all, any with
+  | Some [], [] => true
+  | Some (_ :: _), [_] => true
+  | _, _ => false
+  end.
+Definition spfs_eqb_weak (a : option out_t) (b : option imp_t) : bool :=
+  match a, b with
+  | Some (o1, e1, b1, t1), Some (o2, (e2, ea), (b2, ba), t2) =>
+      set_eqb (list_eqb N.eqb) o1 o2
+      && opt_eqb (set_eqb ltree_eqb) e1 e2 && opt_eqb (set_eqb ltree_eqb) b1 b2
+      && any_weak e1 ea && any_weak b1 ba
+      && list_eqb (list_eqb (list_eqb ext_eqb)) t1 t2
+  | None, None => true
+  | _, _ => false
+  end.
 (* a = model, b = implementation *)
 Definition spfs_eqb (a : option out_t) (b : option imp_t) : bool :=
   match a, b with
